@@ -309,7 +309,10 @@ def step (st : St) (op impl : String) : St × StepOut :=
   | "frames" :: fmax :: fchunks :: fstream :: fdec :: rest =>
     -- `io=1`: the transport ends with an I/O error instead of EOF (`Codec.readFramesIo`)
     let io := rest == ["io=1"]
-    if !(rest.isEmpty || io) then (st, { model := "bad-op" }) else
+    -- `tcp=1`: the fragmented run went over a real TCP connection (`ActorReadHalf::Regular`); the
+    -- kernel chose the fragmentation, so only outcomes and consumed bytes are predicted
+    let tcp := rest == ["tcp=1"]
+    if !(rest.isEmpty || io || tcp) then (st, { model := "bad-op" }) else
     match (field? fmax "max").bind (·.toNat?), (field? fchunks "chunks").bind natList?,
           (field? fstream "stream").bind unhex?, (field? fdec "dec").bind parseDecTable? with
     | some max, some sizes, some stream, some tbl =>
@@ -322,7 +325,8 @@ def step (st : St) (op impl : String) : St × StepOut :=
       let tr := r.2.2
       let maxReq := Codec.maxReq tr
       let sumReq := tr.foldl (fun a e => a + e.req) 0
-      let model := s!"whole={showObs whole} split={showObs split} maxreq={maxReq} reads={tr.length} sumreq={sumReq} alloc=ok"
+      let model := if tcp then s!"whole={showObs whole} split={showObs whole} maxreq=0 reads=0 sumreq=0 alloc=ok"
+        else s!"whole={showObs whole} split={showObs split} maxreq={maxReq} reads={tr.length} sumreq={sumReq} alloc=ok"
       -- oracle on the implementation's observation
       let orc := match words impl with
         | [w, s, mr, _, _, al] =>
